@@ -171,12 +171,12 @@ def allocFromBin (os : Nat) : Nat → State → Nat → State × Option Addr
 /-! ### s_sba_free_to_bin -/
 
 /-- body of the purge loop for one `chunk_idx`: `aws_array_list_get_at` fails for
-`chunk_idx = length` and leaves `chunk = NULL` -/
+`chunk_idx = length` and leaves `chunk = NULL`; `purgeHit` is the range test generated from the source -/
 def purgeStep (pageStart pageEnd : Nat) (l : List Addr) (idx : Nat) : List Addr :=
   let chunk := match l[idx]? with
     | some c => c.lin
     | none => 0
-  if pageStart ≤ chunk ∧ chunk < pageEnd then popBack (swapAt l idx (l.length - 1)) else l
+  if purgeHit chunk pageStart pageEnd then popBack (swapAt l idx (l.length - 1)) else l
 
 /-- `for (chunk_idx = length; chunk_idx >= 0; --chunk_idx)` : `purgeLoop .. length l` -/
 def purgeLoop (pageStart pageEnd : Nat) : Nat → List Addr → List Addr
@@ -199,8 +199,9 @@ def freeToBin (s : State) (i : Nat) (addr : Addr) : State :=
     let cnt := (pg.allocCount + countMod - 1) % countMod   -- page->alloc_count--
     let s1 := setPage s page (some { pg with allocCount := cnt })
     if cnt = 0 ∧ some page ≠ bin.cursor.map (·.page) then
-      let pageStart := page * pageSize + hdrSize           -- (uint8_t *)page + sizeof(struct page_header)
-      let pageEnd := pageStart + pageSize                  -- page_start + AWS_SBA_PAGE_SIZE, as written
+      -- page_start / page_end / the range test are GENERATED from the source text (Gen/SbaConsts.lean)
+      let pageStart := purgeStart (page * pageSize) bin.size
+      let pageEnd := purgeEnd (page * pageSize) bin.size
       let fc := purgeLoop pageStart pageEnd bin.freeChunks.length bin.freeChunks
       let ap := removePage bin.activePages page
       let s2 := setBin s1 i { bin with freeChunks := fc, activePages := ap }
